@@ -97,20 +97,66 @@ def readguard(run, fx):
 
 
 def nosettings(run, fx):
+    """the max_val handed to each FeatureRef: 0xffffffff on the paths on which the feature has no settings, the maximum computed by
+    readFeatureSettings on the others -- decided on the definitions of the variable that reach the constructor call"""
+    from .util import reaches_avoiding
     fn = fx.one('graphite2::FeatureMap::readFeats')
-    asg = [e for _, e in fn.elements() if e['k'] == 'BinaryOperator' and e['op'] == '=' and fn.render(fn.N(e['c'][0])) == 'maxVal']
-    big = [e for e in asg if fn.strip_all_casts(e['c'][1]).get('v') == 0xffffffff]
-    rd = [e for e in asg if 'readFeatureSettings' in fn.render(fn.N(e['c'][1]))]
-    okb = big and any(f[:3] == ('num_settings', '==', '0') for f in dom.facts_at(fn, big[0]['i']))
-    okr = rd and any(f[:3] == ('num_settings', '!=', '0') for f in dom.facts_at(fn, rd[0]['i']))
-    # the value reaches the FeatureRef constructor's max_val argument
     ctor = [e for _, e in fn.elements() if e['k'] == 'CXXConstructExpr' and (e.get('fq') or '') == 'graphite2::FeatureRef::FeatureRef' and len(e.get('c') or []) >= 8]
-    okc = ctor and fn.render(fn.strip_all_casts(ctor[0]['c'][2])) == 'maxVal'
-    if okb and okr and okc:
-        run.held('NOSETTINGS', 'maxVal', fn.loc(big[0]), 'num_settings == 0 => 0xffffffff, else readFeatureSettings(...); passed to FeatureRef')
+    if not ctor:
+        raise AnalysisBroken('readFeats: FeatureRef construction not found')
+    use = ctor[0]
+    arg = fn.strip_all_casts(use['c'][2])
+    if arg['k'] != 'DeclRefExpr' or arg.get('vid') is None:
+        run.violated('NOSETTINGS', 'maxVal', fn.loc(use), 'the maximum handed to FeatureRef is `%s`, not the per-feature maximum variable' % fn.render(arg))
+        return
+    vid = arg['vid']
+    defs = []
+    for _, d in fn.elements():
+        if d['k'] == 'DeclStmt':
+            defs.extend((d, x_['init']) for x_ in d.get('decls', []) if x_.get('vid') == vid and x_.get('init') is not None)
+        elif d['k'] == 'BinaryOperator' and d.get('op') == '=' and fn.strip_all_casts(d['c'][0])['k'] == 'DeclRefExpr' and fn.strip_all_casts(d['c'][0]).get('vid') == vid:
+            defs.append((d, d['c'][1]))
+    big = [(d, r) for d, r in defs if fn.strip_all_casts(r).get('v') == 0xffffffff or fn.deref(r).get('v') == 0xffffffff]
+    rd = [(d, r) for d, r in defs if any((y.get('fq') or '').endswith('readFeatureSettings') for y in fn.walk(r))]
+    other = [(d, r) for d, r in defs if (d, r) not in big and (d, r) not in rd]
+    ns = 'num_settings'
+    zero = dom.edges_with(fn, lambda f: f[0] == ns and f[1] == '==' and f[2] == '0')
+    nonzero = lambda d: any(dom.implies(f[:3], (ns, '!=', '0')) or dom.implies(f[:3], (ns, '>', '0')) for f in dom.facts_at(fn, d['i']))
+    problems = []
+    if not big:
+        problems.append('no definition with 0xffffffff')
+    if not rd:
+        problems.append('no definition from readFeatureSettings')
+    for d, r in other:
+        if reaches_avoiding(fn, d, use, [x for x, _ in defs if x is not d]):
+            problems.append('`%s` (line %s) reaches the constructor' % (fn.render(fn.N(r))[:40], d.get('ln')))
+    for d, r in rd:
+        if not nonzero(d):
+            problems.append('the maximum from the settings is taken also when there are none (line %s)' % d.get('ln'))
+    for d, r in big:
+        # 0xffffffff may reach the constructor only along an edge num_settings == 0 (or be assigned under it)
+        if any(f[:3] == (ns, '==', '0') for f in dom.facts_at(fn, d['i'])):
+            continue
+        seen, st, leak = set(), [(fn.block_of[d['i']], True)], False
+        stops = {fn.block_of[x['i']] for x, _ in rd}
+        ub = fn.block_of[use['i']]
+        while st:
+            b, first = st.pop()
+            if (b in seen) or (b in stops and not first):
+                continue
+            seen.add(b)
+            if b == ub and not first:
+                leak = True
+                break
+            for idx, s_ in enumerate(fn.blocks[b]['succ']):
+                if s_ is not None and (b, idx) not in zero:
+                    st.append((s_, False))
+        if leak and fn.block_of[d['i']] != ub:
+            problems.append('0xffffffff (line %s) can reach the constructor on a path on which the feature has settings and readFeatureSettings did not run' % d.get('ln'))
+    if not problems:
+        run.held('NOSETTINGS', 'maxVal', fn.loc(big[0][0]), 'num_settings == 0 => 0xffffffff, else readFeatureSettings(...); passed to FeatureRef')
     else:
-        run.violated('NOSETTINGS', 'maxVal', fn.where(), 'the largest accepted value is no longer 0xffffffff exactly for features without settings '
-                     '(unbounded %s, from settings %s, handed to the feature %s)' % (bool(okb), bool(okr), bool(okc)))
+        run.violated('NOSETTINGS', 'maxVal', fn.where(), 'the largest accepted value is no longer 0xffffffff exactly for features without settings: %s' % '; '.join(problems))
 
 
 def settingzext(run, fx):
